@@ -63,6 +63,8 @@ pub enum K<'a> {
     Rewind { steps: Rc<Vec<(Val<'a>, Kont<'a>)>>, idx: usize, fin: Rc<Final<'a>> },
     Map { f: Val<'a>, lists: Rc<Vec<Vec<Val<'a>>>>, i: usize, done: Vec<Val<'a>>, kind: MapKind },
     Fold { f: Val<'a>, items: Rc<Vec<Val<'a>>>, i: usize, left: bool },
+    /// transparent marker: the callee was entered through `apply` (statistics only)
+    ApplyMark,
 }
 
 enum Ctrl<'a> {
@@ -233,16 +235,26 @@ impl<'a> Interp<'a> {
                     let mut steps: Vec<(Val<'a>, Kont<'a>)> = vec![];
                     let mut cur = kont.clone();
                     let mut handler: Option<(Val<'a>, Kont<'a>)> = None;
+                    let mut under_hof = false;
                     while let Some(f) = cur {
                         match &f.k {
                             K::Handler(h) => {
                                 handler = Some((h.clone(), f.next.clone()));
                                 break;
                             }
-                            K::Wind { after, .. } => steps.push((after.clone(), f.next.clone())),
+                            K::Wind { after, .. } => {
+                                under_hof = true;
+                                steps.push((after.clone(), f.next.clone()))
+                            }
+                            K::Map { .. } | K::Fold { .. } | K::ApplyMark => under_hof = true,
                             _ => {}
                         }
                         cur = f.next.clone();
+                    }
+                    // the error crosses a builtin that called back into script code: a
+                    // higher-order builtin, or with-handler (whose body is a thunk run by a builtin)
+                    if under_hof || handler.is_some() {
+                        self.note("raise-under-higher-order-builtin");
                     }
                     if !steps.is_empty() {
                         self.note("raise-crosses-wind");
@@ -569,6 +581,8 @@ impl<'a> Interp<'a> {
                 }
                 self.note("callcc");
                 let k = Val::Cont(kont.clone());
+                // the receiver is script code called back by a builtin (statistics marker)
+                *kont = push(K::ApplyMark, kont);
                 Ctrl::Apply(args.pop().unwrap(), vec![k])
             }
             "dynamic-wind" => {
@@ -590,6 +604,9 @@ impl<'a> Interp<'a> {
                 let Some(tail) = last.list_to_vec() else { return Ctrl::Raise(err("TypeMismatch")) };
                 let f = args.remove(0);
                 args.extend(tail);
+                if matches!(f, Val::Closure(_) | Val::CaseClosure(_)) {
+                    *kont = push(K::ApplyMark, kont);
+                }
                 Ctrl::Apply(f, args)
             }
             "map" | "for-each" | "filter" => {
@@ -969,6 +986,7 @@ impl<'a> Interp<'a> {
                 self.map_step(f.clone(), lists.clone(), i + 1, done, *kind, kont)
             }
             K::Fold { f, items, i, left } => self.fold_step(f.clone(), items.clone(), i + 1, *left, v, kont),
+            K::ApplyMark => Ctrl::Ret(v),
         })
     }
 
